@@ -9,6 +9,7 @@ use std::io::Write;
 use std::panic::{catch_unwind, AssertUnwindSafe};
 
 mod cases_bitvec;
+mod cases_bfv;
 
 pub struct Rng(pub u64);
 impl Rng {
@@ -76,6 +77,7 @@ fn main() {
 fn dispatch(case: &str, ctx: &mut Ctx, one: Option<&str>, rng: &mut Rng, budget: usize) {
     match case {
         "bitvec_iter_ones" | "bitvec_iter_zeros" | "bitvec_ops" | "bitvec_stale" => cases_bitvec::run(case, ctx, one, rng, budget),
+        "bfv_ops" | "bfv_copy" | "bfv_unaligned" | "bfv_apply" => cases_bfv::run(case, ctx, one, rng, budget),
         _ => { eprintln!("unknown case {}", case); std::process::exit(2); }
     }
 }
